@@ -226,7 +226,8 @@ theorem header_conforms_iff (h : Obj) (hc : (⟨"common.Header", h⟩ : Part).Co
     ∃ s, h.get c!"version" = .str s ∧ pyMatches Spec.reHeaderVersion s = true := by
   have h1 := hc (.type c!"version" [.str]) (by show _ ∈ Spec.catalogue "common.Header"; decide)
   have h2 := hc (.re c!"version" [Spec.reHeaderVersion]) (by show _ ∈ Spec.catalogue "common.Header"; decide)
-  simp only [Rule.check] at h1 h2
+  replace h1 := Rule.check_type_any h1
+  simp only [Rule.check] at h2
   cases hv : h.get c!"version" with
   | str s =>
     refine ⟨s, rfl, ?_⟩
